@@ -45,6 +45,7 @@ type openScenario struct {
 	Stale int64  // for stale: the index reflects only the first Stale bytes
 	Pad   int    // zero blocks behind the prefix (preallocated / extended images, blocking-factor padding)
 	Junk  int    // blocks of non-tar bytes behind the prefix (and behind the zero blocks)
+	Link  bool   // the drive path is a symbolic link to the tape file
 }
 
 // bytesOf returns the drive content of a scenario.
@@ -119,6 +120,8 @@ func openRun(prop, tier string, c Case, w *Worker) (res Result) {
 			res.Verdict, res.Msg = "inconclusive", "tape length not aligned"
 			return
 		}
+		// the drive is named through a symbolic link
+		scen = append(scen, openScenario{L: n, Index: "absent", Link: true}, openScenario{L: n, Index: "current", Link: true})
 		// tails: zero blocks over several orders of magnitude (a 5000-block tail = a 2.5 MiB preallocated image) and junk,
 		// behind the intact tape, behind the tape without its end-of-archive marker and behind one earlier record boundary
 		ends := []int64{n}
@@ -194,7 +197,19 @@ func openRun(prop, tier string, c Case, w *Worker) (res Result) {
 		d := w.NewDir("c16")
 		_ = os.MkdirAll(tapeDir(d), 0o777)
 		drive := tapeDir(d) + "/drive.tar"
-		if err := os.WriteFile(drive, before, 0o666); err != nil {
+		if sc.Link {
+			real := tapeDir(d) + "/the-real-tape.tar"
+			if err := os.WriteFile(real, before, 0o666); err != nil {
+				res.Verdict, res.Msg = "inconclusive", err.Error()
+				return
+			}
+			if err := os.Symlink(real, drive); err != nil {
+				res.Verdict, res.Msg = "inconclusive", err.Error()
+				return
+			}
+			desc += ", drive path is a symbolic link"
+			res.count("scenarios_with_symlinked_drive", 1)
+		} else if err := os.WriteFile(drive, before, 0o666); err != nil {
 			res.Verdict, res.Msg = "inconclusive", err.Error()
 			return
 		}
@@ -418,6 +433,6 @@ func openRun(prop, tier string, c Case, w *Worker) (res Result) {
 func init() {
 	register(&Engine{Name: "opens", Props: []string{"C16"}, Cases: openCases, Run: openRun})
 	propMeta["C16"] = PropMeta{Level: "fault_enumeration",
-		Rule:        "per case a tape is produced by a generated history; for EVERY block-aligned prefix length (0, 512, ..., len) whose from-scratch rebuild succeeds and finds a root, combined with the index absent and with the index current for that prefix, plus tails behind the intact tape / the tape without end-of-archive marker / an earlier record boundary (1, 2, 3, 7, 64, 5000 and on every fourth tape 70000 zero blocks; junk blocks; zero then junk): construct + Initialize; the drive file must keep its bytes as a prefix and must not grow; on success the walked tree must equal the tree of a from-scratch recovery.Index of the same bytes; a file then written through the instance, a directory made and an older file rewritten must read back byte-exactly, must not disturb older entries and must be present with the same content after another from-scratch rebuild; prefixes that cut inside a record's content or header, unaligned prefixes and stale indexes are the shapes of three open findings and are visited by their witness cases only; non-trivial = at least 6 scenarios checked on a tape of at least 4 records; distinct = distinct tape; per case one open through the directory-cache composition (`serve ftp`) over the cache directory an earlier session - over an earlier state of the tape - left behind",
+		Rule:        "per case a tape is produced by a generated history; for EVERY block-aligned prefix length (0, 512, ..., len) whose from-scratch rebuild succeeds and finds a root, combined with the index absent and with the index current for that prefix (the intact tape also through a drive path that is a symbolic link), plus tails behind the intact tape / the tape without end-of-archive marker / an earlier record boundary (1, 2, 3, 7, 64, 5000 and on every fourth tape 70000 zero blocks; junk blocks; zero then junk): construct + Initialize; the drive file must keep its bytes as a prefix and must not grow; on success the walked tree must equal the tree of a from-scratch recovery.Index of the same bytes; a file then written through the instance, a directory made and an older file rewritten must read back byte-exactly, must not disturb older entries and must be present with the same content after another from-scratch rebuild; prefixes that cut inside a record's content or header, unaligned prefixes and stale indexes are the shapes of three open findings and are visited by their witness cases only; non-trivial = at least 6 scenarios checked on a tape of at least 4 records; distinct = distinct tape; per case one open through the directory-cache composition (`serve ftp`) over the cache directory an earlier session - over an earlier state of the tape - left behind",
 		Assumptions: []string{"'current' index = the index a from-scratch rebuild of that prefix produces"}}
 }
